@@ -146,6 +146,16 @@ func (e *Engine) setupIntrinsics() {
 		v := e.concretize(st, t, "choice "+name)
 		return BVC(64, v)
 	}
+	n[p+"vpWriteMark"] = func(e *Engine, st *State, fn *ssa.Function, a []Value) Value {
+		effect(st, "vpWriteMark")
+		st.WriteMark = len(st.Heap)
+		st.OldWrites = 0
+		return nil
+	}
+	n[p+"vpOldWrites"] = func(e *Engine, st *State, fn *ssa.Function, a []Value) Value {
+		effect(st, "vpOldWrites")
+		return BVC(64, uint64(st.OldWrites))
+	}
 	n[p+"vpConcrete"] = func(e *Engine, st *State, fn *ssa.Function, a []Value) Value {
 		t := a[0].(*Term)
 		if t.IsConst() {
